@@ -29,6 +29,11 @@ AZ = R(97, 122)  # a..z
 BOOL = ("bool",)
 
 
+def STR(maxlen):
+    """native symbolic str of length <= maxlen (symbolic length: use only for cheap kernels, DESIGN.md 2.3)"""
+    return ("str", maxlen)
+
+
 @dataclass
 class Obligation:
     prop: str
@@ -46,23 +51,26 @@ class Obligation:
     module: str = ""
     twin: bool = True  # run the reachability twin
     expect: str = "confirmed"  # verdict expected on the unchanged tree (documentation only)
+    engine: str = "crosshair"  # "direct": fn() issues its own solver queries and returns a result dict
 
     def arg_pre(self) -> str:
         parts = []
         for name, t in self.args.items():
             if t[0] == "int":
                 parts.append("%d <= %s <= %d" % (t[1], name, t[2]))
+            elif t[0] == "str":
+                parts.append("len(%s) <= %d" % (name, t[1]))
         return " and ".join(parts) or "True"
 
     def signature(self) -> str:
         return ", ".join(
-            "%s: %s" % (n, "bool" if t[0] == "bool" else "int") for n, t in self.args.items()
+            "%s: %s" % (n, {"bool": "bool", "int": "int", "str": "str"}[t[0]]) for n, t in self.args.items()
         )
 
     def domain_size(self) -> int:
         n = 1
         for t in self.args.values():
-            n *= 2 if t[0] == "bool" else (t[2] - t[1] + 1)
+            n *= 2 if t[0] == "bool" else (sum(0x110000 ** k for k in range(t[1] + 1)) if t[0] == "str" else (t[2] - t[1] + 1))
         return n
 
 
